@@ -327,7 +327,7 @@ class Printer:
             self.param(ps[0], "")
             self.t(")", "")
             self.t("[", "")
-            self.t("0" if name == "SwitchScenario" else "1", "")
+            self.t(self.style.integer(0 if name == "SwitchScenario" else 1), "")
             self.t("]", "")
         elif name == "SwitchRandom":
             self.t("random", "")
